@@ -83,6 +83,9 @@ def check_api(case, ctx):
     # cell: every value comes from its own coordinates
     dscheck.check_all_axis(ctx, ID, spec, ds, menu[:8], lambda: mat.make_data(spec))
     # permute-entries (in-memory)
+    if "perms" not in case:
+        case = dict(case, perms=[[list(reversed(range(len(d[k])))) for k in ("ti", "li", "si")] for d in spec["inputs"] + ([spec["clim"]] if spec.get("clim") else [])],
+                    axes=[case["axis"]] if case.get("axis") not in (None, "all") else ["no", "time"])
     spec2 = permuted_spec(spec, case["perms"])
     d1 = mat.make_data(spec)
     d2 = mat.make_data(spec2)
